@@ -311,6 +311,8 @@ def model_twins(rep, rng, n):
     bad = 0
     for i, (c1, c2, T) in enumerate(pairs):
         e1, e2 = exps[2 * i], exps[2 * i + 1]
+        if e1 is None or e2 is None:
+            continue
         lim = (T + 1) * 1440
         cut = lambda e: (([e[0], e[1]] if e[0] and e[1] < lim else None), [x for x in e[2] if x[0] < lim],
                          [x for x in e[3] if x[0] < lim], [x for x in e[4] if x[0] < lim])
